@@ -86,7 +86,8 @@ class MySQLQueryBuilder(QueryBuilder):
     def _on_conflict_action_sql(self, ctx: SqlContext) -> str:
         on_conflict_ctx = ctx.copy(with_namespace=False)
         # in INSERT ... SELECT a new value may come from a source of the SELECT: it keeps its source's name
-        value_ctx = ctx.copy(with_namespace=bool(self._from))
+        # ... and with a row alias (INSERT .. AS new) the new row is a second source in scope beside the target table
+        value_ctx = ctx.copy(with_namespace=bool(self._from) or self.alias is not None)
         if len(self._on_conflict_do_updates) > 0:
             updates = []
             for field, value in self._on_conflict_do_updates:
